@@ -40,6 +40,8 @@ type JobSpec struct {
 	Overrides    []string                    `json:"overrides"` // target=replacement, in addition to the harness files' //gosx:override lines
 	ExploreSched bool                        `json:"explore_sched"` // fork over every choice among several ready select cases (arrival orders of worker results)
 	SchedBudget  int                         `json:"sched_budget"` // at most this many scheduling choices are forked per path (0 = all)
+	TraceAccess  bool                        `json:"trace_access"`  // record map accesses with locksets and vector clocks; report feasible conflicting pairs (C10)
+	ReplayRace   bool                        `json:"replay_race"`   // build the native replay binary with the race detector
 	ReplayRepeat int                         `json:"replay_repeat"` // native replays are repeated up to this many times until one confirms (schedule-dependent behaviour)
 	Validate     int                         `json:"validate"` // replay every n-th ok path natively and compare observations (0 = default 1 per job)
 }
@@ -264,7 +266,7 @@ func cmdCheck(args []string) int {
 				continue
 			}
 			perGroup[key]++
-			bin, err := rp.binFor(rel, jobOverrides[jr.Name])
+			bin, err := rp.binForOpt(rel, jobOverrides[jr.Name], js.ReplayRace)
 			if err != nil {
 				fmt.Println(err)
 				problems = append(problems, "native replay build failed")
@@ -295,7 +297,7 @@ func cmdCheck(args []string) int {
 		}
 		// validation of sampled ok paths: the native run must produce the same observations
 		for i, vc := range jr.validation {
-			bin, err := rp.binFor(rel, jobOverrides[jr.Name])
+			bin, err := rp.binForOpt(rel, jobOverrides[jr.Name], js.ReplayRace)
 			if err != nil {
 				fmt.Println(err)
 				problems = append(problems, "native replay build failed")
@@ -461,7 +463,7 @@ func runJob(p *Program, js *JobSpec, params map[string]int64, workers int, solve
 			return jr
 		}
 	}
-	sh := &Shared{prog: p.prog, params: params, job: js.Name, paranoid: paranoid, verbose: verbose, exploreSched: js.ExploreSched, schedBudget: js.SchedBudget, maxPaths: js.MaxPaths, overrides: map[string]extFn{}}
+	sh := &Shared{prog: p.prog, params: params, job: js.Name, paranoid: paranoid, verbose: verbose, exploreSched: js.ExploreSched, traceAccess: js.TraceAccess, schedBudget: js.SchedBudget, maxPaths: js.MaxPaths, overrides: map[string]extFn{}}
 	sh.cond = sync.NewCond(&sh.mu)
 	for _, o := range overrides {
 		tgt, repl := p.byName[o[0]], p.byName[o[1]]
@@ -565,7 +567,7 @@ func runJob(p *Program, js *JobSpec, params map[string]int64, workers int, solve
 		jr.SolverS += e.sol.Time.Seconds()
 		jr.Decided += e.Decided
 		jr.QuickDec += e.QuickDec
-		jr.Asserts += e.Asserts
+		jr.Asserts += e.Asserts + e.RaceQueries
 		jr.Violations = append(jr.Violations, e.Violations...)
 		if len(jr.Samples) < 4 {
 			jr.Samples = append(jr.Samples, e.Samples...)
